@@ -51,7 +51,7 @@ func (c10) Assumptions() []string {
 func (c10) DiedIsViolation() bool      { return true }
 func (c10) MinNontrivial(t string) int { return 500 }
 
-var hostileActionBits = []string{"/* a|b; %% */", "if x { y() }", "// c: d %token\n", "s := \"q: r | t ;\"", "{ { } }", "/**/", "/** doc **/", "x = '|'", "%prec", "%%", "for { break }", "a : b ;", "/* {} */", "/* 加减法 — é */", "s = \"ünï\"", "s = \"C:\\\\\"", "x = '\\\\'", "s = \"a\\\"b\""}
+var hostileActionBits = []string{"/* a|b; %% */", "if x { y() }", "// c: d %token\n", "s := \"q: r | t ;\"", "{ { } }", "/**/", "/** doc **/", "x = '|'", "%prec", "%%", "for { break }", "a : b ;", "/* {} */", "/* 加减法 — é */", "s = \"ünï\"", "s = \"C:\\\\\"", "x = '\\\\'", "s = \"a\\\"b\"", "// don't\n", "/* it's 5\" wide */", "/* ` */"}
 
 func hostileAction(r *rand.Rand, k int) string {
 	var sb strings.Builder
